@@ -29,7 +29,7 @@ from .. import rustext, tlc
 from ..core import VERIF, MachineryError, git_available
 
 PY = "/venv/bin/python"
-STD_FILTERS = [[[[97]]], [[[97], [98]]], [[[97, 46, 98]], [[97], [99]]], [[[98]], [[97], [98], [99]]]]
+STD_FILTERS = [[[[97]]], [[[97], [98]]], [[[97, 46, 98]], [[97], [99]]], [[[98]], [[97], [98], [99]]], [[[97], [98]], [[97]]]]
 OUT_PREFIX = '/\\ out = "'
 
 
@@ -667,7 +667,7 @@ def run(ctx):
     report(ctx, outs, rejected)
     ctx.cov["cases_enumerated_by_tlc"] = total_cases
     ctx.cov["rule"] = ("a case = one listing (build/flatten/lookup, 3 input orders) or one ordered pair of listings (tree_changes under 8 flag "
-                       "combinations + 4 path filters, commit_tree_changes in 2 orders, RenameDetector) or one sequence of two diffs made with one "
+                       "combinations + 5 path filters, commit_tree_changes in 2 orders, RenameDetector) or one sequence of two diffs made with one "
                        "RenameDetector object (one per distinct detector state x second pair), each executed with and without the Rust "
                        "extensions; non-trivial = listing with >= 2 entries or pair with A # B (counted once, not per implementation), plus every "
                        "randomly generated execution judged by TLC")
